@@ -337,9 +337,10 @@ def build_output(proj, spec, fs):
     kin = ob["observables"][spec["obs"][0]]
     kin[0]["Q2"], kin[1]["Q2"] = 20, 10
     ob["observables"] = {}
+    xs_kinds = set(S.Evaluator(proj).module_global(proj.module("yadism.observable_name"), "xs"))
     for name in spec["obs"]:
         ks = [dict(k) for k in kin]
-        if not name.startswith("XS"):
+        if name.split("_")[0] not in xs_kinds:
             for k in ks:
                 k.pop("y")
         ob["observables"][name] = ks
@@ -443,7 +444,9 @@ def _job(spec):
 def specs(tier):
     out = []
     mixes = [(["F2_charm", "FL_total"], "NC", "electron"), (["XSHERANC", "F2_total"], "NC", "positron"), (["XSCHORUSCC_charm", "F3_light"], "CC", "neutrino"),
-             (["g1_light"], "NC", "electron")]
+             (["g1_light"], "NC", "electron"),
+             # cross-section kinds whose names do not start with "XS" (they carry y as well)
+             (["F1_total", "g5_total"], "NC", "electron"), (["FW_total", "F2_light"], "CC", "neutrino")]
     for (obs, process, projectile), (fns, nfff), pto, sv, fmt, (empty, none_) in itertools.product(
         mixes, [("ZM-VFNS", 4), ("FFNS", 3)], [0, 2], [False, True], ["yaml", "tar"], [(False, False), (True, False), (False, True), (True, True)]
     ):
